@@ -145,6 +145,10 @@ def _body_paths(check):
     n0 = len(check.obs)
     check.guarded("LAYOUT-AGREE", "integration.implicitmodel.calc_jacobian", lambda: c06.fd_column(check, proj, conservation_only=True, only_kinds=("layout",)))
     check.obs[n0:] = [o for o in check.obs[n0:] if o.rule == "LAYOUT-AGREE" or o.status != "ok"]
+    # "number of steps": the global time step is the minimum of a cell-wise quantity that is DEFINED in every cell -- an entry
+    # left at nan makes min() depend on where the cell is (same obligation as C18 DT-REST)
+    from . import c18
+    check.guarded("DT-REST", "timestep kernels", lambda: c18.rest_alloc(check))
     # "all integrators": the implicit family packs the per-equation arrays into ONE vector; every term of the linear system must
     # use the same (interleaved) packing, or the contribution of cell i / variable q lands on another cell -- an assignment
     # anchored on cell 0 that does not commute with the shift (same obligations as C06 TH-SCHEME, the layout clauses only)
